@@ -92,6 +92,9 @@ class NpDtypes:
                 return VEnum(NPDT, c)
             if isinstance(x, VEnum) and x.enum == "DataType":
                 raise PyRaise("TypeError", "np.dtype(ir.DataType)")
+            if isinstance(x, VRef) and x.sort in ("Opaque", "Emitter", "ArgToken"):
+                from specs.opaque import fresh_opaque
+                return fresh_opaque(ex)
             raise OutOfSubset(f"np.dtype({x!r})")
         w.path_models["numpy.dtype"] = np_dtype
 
